@@ -281,12 +281,29 @@ def main_c06(tier):
             hsts.append(nh)
         from checks.emu_models import run_extra as rx
         rx(ck, bdir, sys2({"O", "K", mc}), hsts, "C06/%s.%s(%s)" % (model, chan, mode))
+    # ... and for the mark channels of the ovni model (ACTIVE on the thread, RUNNING on the CPU)
+    msys = sys2({"O", "K"})
+    msys["marks"] = [{"type": 1, "stack": True}, {"type": 2, "stack": False}]
+    for name, sub in (("stack", {"MUi": ("OM[", [1, 1]), "MUI": ("OM]", [1, 1]), "DR[": ("OM[", [2, 1]), "DR]": ("OM]", [2, 1])}),
+                      ("single", {"MUi": ("OM=", [1, 2]), "MUI": ("OM=", [2, 2]), "DR[": ("OM=", [3, 2]), "DR]": ("OM=", [4, 2])})):
+        hsts = []
+        for hst in acc[:per * 3]:
+            nh = []
+            for e in hst:
+                if e["m"] in sub:
+                    nh.append(ev(e["th"], sub[e["m"]][0], list(sub[e["m"]][1])))
+                elif e["mc"] in ("M", "D"):
+                    continue
+                else:
+                    nh.append(e)
+            hsts.append(nh)
+        run_extra(ck, bdir, msys, hsts, "C06/ovni.mark-%s(ACT)" % name)
     ck.phase("per_channel")
     # recorded executions: the traces of the repository's own emu-* tests, validated event by event
     from checks import suite_traces
     suite_traces.run(ck, tier)
     ck.phase("suite_traces")
-    ck.assumptions += ["task, mark and breakdown channels are exercised by C07, C17, C20 with the same view oracle"]
+    ck.assumptions += ["task and breakdown channels are exercised by C07 and C20 with the same view oracle"]
     return ck.finish(rule="histories = transition cover of the bounded view model (TLC) + the accepted ones "
                           "re-instantiated for every published channel of every model; non-trivial = at least 3 "
                           "events; distinct by event list")
